@@ -786,6 +786,16 @@ def monitor(case, arr):
     return singular_failure
 
 
+def vpoint_monitor(case, ax, up, vpt):
+    """the defining equation of face (ax, up) for the virtual points `vpt` returned by `get_virtual_point`"""
+    g, _ = face_slices(case, ax, up)
+    arr = np.array(case["data"], dtype=float)
+    if np.shape(vpt) != arr[g].shape:
+        return {"what": "shape of the virtual points", "kind": case["sides"][(ax, up)]["kind"], "shape": list(np.shape(vpt))}
+    arr[g] = vpt
+    return monitor(dict(case, sides={(ax, up): case["sides"][(ax, up)]}), arr)
+
+
 def face_slices(case, ax, up):
     """(ghost, near) index tuples selecting the whole face in the padded array (all components)"""
     rank, nax = case["rank"], len(case["grid"]["shape"])
@@ -1102,6 +1112,7 @@ def gen_reject(rng):
 
 def run(ctx):
     from harness.common.lean import LeanBatch
+    from harness.common import lean as lean_mod
     import logging
     import pde  # noqa
 
@@ -1209,7 +1220,7 @@ def run(ctx):
             return None, val, None
         return [unq(x) for x in val["a"]], list(val["div0"]), list(val["sing"])
 
-    for ci, (c, ri) in enumerate(zip(cases, reqs)):
+    def judge_ghost_case(ci, c, ri):
         key = case_key(c)
         nontriv = any((s["v"] is not None and (any(x != 0 for x in s["v"]) or s.get("vinf"))) or s["kind"] in ("periodic", "antiperiodic")
                       for s in c["sides"].values())
@@ -1220,10 +1231,10 @@ def run(ctx):
         if isinstance(rs, str) or "error" in rs:
             ctx.disagree("ghost", {"spec": repr(c["spec"]), "grid": c["grid"], "rank": c["rank"]}, "accepted",
                          rs if isinstance(rs, str) else rs["error"], "real code rejected a specification the generator considers valid")
-            continue
+            return
         if model is None:
             ctx.disagree("ghost", key, f"model error {div0}", "ok")
-            continue
+            return
         if div0:
             ctx.hist("outcome", "model: expression divides by zero")
         if singular:
@@ -1279,6 +1290,14 @@ def run(ctx):
             if not agree(vpt, exp, 1e-11 * _model_scale(model)):
                 ctx.disagree("ghost:get_virtual_point", {"spec": repr(c["spec"]), "grid": c["grid"], "rank": c["rank"], "axis": ax, "upper": up},
                              exp.tolist(), vpt.tolist(), "virtual points differ")
+            # monitor: the virtual points returned for this face satisfy the face's defining equation
+            ctx.monitor_evals += 1
+            m = vpoint_monitor(c, ax, up, vpt)
+            if m:
+                ctx.monitor_fail("ghost:get_virtual_point", {"spec": repr(c["spec"]), "grid": c["grid"], "rank": c["rank"], "t": c["t"],
+                                                             "data": key["data"], "route": "get_virtual_point", "mode": "source",
+                                                             "leg": "ghost", "axis": ax, "upper": up, "pickle_case": pack(c)},
+                                 m, "the virtual point satisfies the condition", m["what"], key=failure_key("get_virtual_point", m, c))
         # get_virtual_point_data (const, factor, index) of every constant / periodic condition
         for (ax, up), vri in vpreqs[ci].items():
             s = c["sides"][(ax, up)]
@@ -1296,6 +1315,9 @@ def run(ctx):
             rows = [[float(unq(x)) for x in r] for r in mv["rows"]]
             vshape = s["vshape"] if s["kind"] not in ("periodic", "antiperiodic") else []
             ncol = 3 if s["kind"] == "curvature" else 2
+            if len(vp) != (5 if ncol == 3 else 3):
+                ctx.disagree("vpdata", vkey, f"{2 * ncol - 1} items", f"{len(vp)} items", "layout of get_virtual_point_data")
+                continue
             real_cols = [vp[0], vp[1]] + ([vp[3]] if ncol == 3 else [])
             idx_real = [int(vp[2])] + ([int(vp[4])] if ncol == 3 else [])
             idx_model = [int(mv["index"])] + ([int(mv["index2"])] if ncol == 3 else [])
@@ -1316,7 +1338,7 @@ def run(ctx):
                     break
 
     # ---- linked leg: judged after the link (phase 1) and after overwriting the linked arrays (phase 2)
-    for li, ((c, v2), (r1, r2)) in enumerate(zip(lcases, lreqs)):
+    def judge_linked_case(li, c, v2, r1, r2):
         key = case_key(c)
         ctx.count({"case": key, "values2": {str(k): [str(x) for x in v[0]] + [str(i) for i in v[1]] for k, v in v2.items()}},
                   nontrivial=True, leg="linked")
@@ -1349,6 +1371,23 @@ def run(ctx):
                           extra_case={"pickle_values2": pack(v2), "phase": phase, "pickle_case": pack(c)},
                           keyfn=lambda rn, m, case, route=route, phase=phase: linked_failure_key(route, phase, m, case))
 
+    def guarded(leg, case, fn):
+        """a result of the real code that the harness cannot even interpret is a disagreement with the model, not a
+        defect of the check"""
+        try:
+            fn()
+        except lean_mod.BrokenCheck:
+            raise
+        except Exception as e:  # noqa
+            import traceback
+            ctx.disagree(leg, {"spec": repr(case["spec"]), "grid": case["grid"], "rank": case["rank"]}, "a result of the modelled layout",
+                         traceback.format_exc()[-600:], f"result of the real code could not be interpreted ({type(e).__name__})")
+
+    for ci, (c, ri) in enumerate(zip(cases, reqs)):
+        guarded("ghost", c, lambda ci=ci, c=c, ri=ri: judge_ghost_case(ci, c, ri))
+
+    for li, ((c, v2), (r1, r2)) in enumerate(zip(lcases, lreqs)):
+        guarded("linked", c, lambda li=li, c=c, v2=v2, r1=r1, r2=r2: judge_linked_case(li, c, v2, r1, r2))
     # ---- reject leg
     for r, got in zip(rcases, rres):
         rkey = {"grid": r["grid"], "rank": r["rank"], "spec": repr(r["spec"])}
@@ -1404,6 +1443,14 @@ def replay(ctx, rep):
         if isinstance(res, str) or "error" in res:
             print("real code failed:", res)
             return False
+        if route == "get_virtual_point":
+            vpt = res["vpoint"].get((c["axis"], c["upper"]))
+            if vpt is None or isinstance(vpt, str):
+                print(f"route {route}: {vpt}")
+                return False
+            m = vpoint_monitor(case, c["axis"], c["upper"], vpt)
+            print(f"route {route} ({mode}): monitor {'holds' if m is None else m}")
+            return m is None
         if route.startswith("get_boundary_values"):
             tab = res.get("bvals_bc" if route.endswith("(bc)") else "bvals")
             arr = res.get("bvals_bc_full") if route.endswith("(bc)") else res.get("field")
